@@ -414,6 +414,11 @@ func (s *Script) Slice(start, end uint64) *Script {
 
 // IsMultiSigOut returns true if this is a multisig output script.
 func (s *Script) IsMultiSigOut() bool {
+	// what follows OP_RETURN or OP_FALSE OP_RETURN is data, whatever it looks like.
+	if s.IsData() {
+		return false
+	}
+
 	parts, err := DecodeParts(*s)
 	if err != nil {
 		return false
@@ -470,11 +475,11 @@ func (s *Script) ScriptType() string {
 	if s.IsP2PK() {
 		return ScriptTypePubKey
 	}
-	if s.IsMultiSigOut() {
-		return ScriptTypeMultiSig
-	}
 	if s.IsData() {
 		return ScriptTypeNullData
+	}
+	if s.IsMultiSigOut() {
+		return ScriptTypeMultiSig
 	}
 	if s.IsP2PKHInscription() {
 		return ScriptTypePubKeyHashInscription
